@@ -15,6 +15,16 @@ CHECKS = {
                 design_ref='DESIGN.md section 4 C05',
                 note='float as real; record identity model licensed by C20; dict iteration order arbitrary'),
 }
+CHECKS['C06'] = dict(
+    text='RecordManager.async_updates_from_response is verified against the statement for all datagrams and cache states: '
+         'loop invariants (five self-contained views) give the exact pair list in datagram order, the refresh / PTR-floor '
+         'arithmetic, add/remove sets; post-loop obligations give (a) cached with arrival time and last TTL, (b) goodbyes '
+         'removed, untouched identities unchanged; at-call obligations fix the order (listeners before any cache add/remove, '
+         'completion after both); the ghost call log proves each registered listener is called exactly once per phase. '
+         'Fan-out, listener registration/replay and removal are verified too. Flush marking is the C05 contract.',
+    design_ref='DESIGN.md section 4 C06',
+    note='T7 listener frame; answers are fresh decoder objects with created == msg.now (C02); one identity with both zero '
+         'and non-zero TTL in a datagram excluded; ghost index function ai (conservative); float as real')
 NOT_APPLICABLE = {
     'C07': 'end-to-end liveness over several hosts and lossy delivery: no per-function contract can express it '
            '(DESIGN.md section 6)',
